@@ -4629,3 +4629,108 @@ func ruleDetachBeforeRelease(c *Ctx) {
 	})
 	c.Floor("branches that both detach and release", n, 7)
 }
+
+// ---------------------------------------------------------------------------
+// varsize-arg-types (C17) - io.GetVarSize computes "the length of the encoding" by reflection and answers for the
+// kinds it knows: strings, integers, pointers to Serializable, and slices/arrays whose *element* is Serializable or a
+// fixed-width integer. For a slice of anything else it silently returns the length of the count prefix alone. A
+// slice of structs that are Serializable through pointer receivers ([]transaction.Attribute) is such a slice unless
+// the function takes the element's address itself. Every call site in the module is therefore checked against what
+// the implementation supports: the static type of the argument must be one of the supported shapes, and the
+// pointer-receiver shape counts as supported only if the slice arm of GetVarSize takes element addresses
+// (reflect.Value.Addr). The reported size of a value has to equal the length of its encoding.
+func ruleVarSizeArgTypes(c *Ctx) {
+	gvs := c.P.Func("pkg/io", "", "GetVarSize")
+	iop := c.P.Pkg("pkg/io")
+	if gvs == nil || iop == nil {
+		c.Lost("varsize-arg-types.anchor", "io.GetVarSize not found")
+		return
+	}
+	serObj, _ := iop.Types.Scope().Lookup("Serializable").(*types.TypeName)
+	if serObj == nil {
+		c.Lost("varsize-arg-types.iface", "io.Serializable not found")
+		return
+	}
+	ser := serObj.Type().Underlying().(*types.Interface)
+	// does the implementation take element addresses?
+	ptrArm := false
+	ast.Inspect(gvs.Decl.Body, func(x ast.Node) bool {
+		if call, ok := x.(*ast.CallExpr); ok {
+			if sel, ok := call.Fun.(*ast.SelectorExpr); ok && sel.Sel.Name == "Addr" {
+				if fn, ok := gvs.Pkg.TypesInfo.ObjectOf(sel.Sel).(*types.Func); ok && fn.Pkg() != nil && fn.Pkg().Path() == "reflect" {
+					ptrArm = true
+				}
+			}
+		}
+		return true
+	})
+	intKind := func(t types.Type) bool {
+		b, ok := t.Underlying().(*types.Basic)
+		return ok && b.Info()&types.IsInteger != 0
+	}
+	var classify func(t types.Type) (string, bool)
+	classify = func(t types.Type) (string, bool) {
+		switch u := t.Underlying().(type) {
+		case *types.Basic:
+			if u.Info()&(types.IsInteger|types.IsString) != 0 {
+				return "integer/string", true
+			}
+		case *types.Pointer:
+			if types.Implements(t, ser) {
+				return "pointer to Serializable", true
+			}
+		case *types.Slice, *types.Array:
+			var el types.Type
+			if s, ok := u.(*types.Slice); ok {
+				el = s.Elem()
+			} else {
+				el = u.(*types.Array).Elem()
+			}
+			switch {
+			case intKind(el):
+				return "slice of integers", true
+			case types.Implements(el, ser):
+				return "slice of Serializable", true
+			case types.Implements(types.NewPointer(el), ser):
+				if ptrArm {
+					return "slice of values Serializable through their address (the implementation takes element addresses)", true
+				}
+				return "slice of values that are Serializable only through pointer receivers: GetVarSize returns the size of the count prefix alone", false
+			}
+		case *types.Interface:
+			return "interface value (dynamic)", true
+		}
+		return "a type GetVarSize has no arm for", false
+	}
+	n := 0
+	seen := map[string]int{}
+	for _, fd := range c.P.AllFuncDecls() {
+		if fd.Decl.Body == nil || !strings.HasPrefix(pkgRel(fd.Pkg.Types), "pkg/") {
+			continue
+		}
+		info := fd.Pkg.TypesInfo
+		ast.Inspect(fd.Decl.Body, func(x ast.Node) bool {
+			call, ok := x.(*ast.CallExpr)
+			if !ok || len(call.Args) != 1 {
+				return true
+			}
+			if cf := calleeFunc(info, call); cf != gvs.Obj {
+				return true
+			}
+			t := info.TypeOf(call.Args[0])
+			if t == nil {
+				return true
+			}
+			n++
+			seen[FuncKey(fd.Obj)]++
+			key := fmt.Sprintf("varsize-arg-types.%s#%d", FuncKey(fd.Obj), seen[FuncKey(fd.Obj)])
+			if why, ok := classify(t); ok {
+				c.OK(key, c.P.Pos(call.Pos()), types.TypeString(t, nil)+": "+why)
+			} else {
+				c.Fail(key, c.P.Pos(call.Pos()), fmt.Sprintf("%s calls io.GetVarSize with %s - %s: the reported size is not the length of the encoding", FuncKey(fd.Obj), types.TypeString(t, func(p *types.Package) string { return p.Name() }), why))
+			}
+			return true
+		})
+	}
+	c.Floor("call sites of io.GetVarSize", n, 20)
+}
